@@ -50,6 +50,7 @@ class World(WsWorld):
         self.expect_comp = []
         self.local_close_planned = False
         self.local_closed = False
+        self.coalesce = False
 
     # --- build -------------------------------------------------------------------------------------
     def build(self):
@@ -133,6 +134,9 @@ class World(WsWorld):
             self.plan_inflate()
         if self.mode in ("recv", "inflate"):
             self.local_close_planned = ch.flag("local-close", 0.15)
+            self.coalesce = ch.flag("coalesce", 0.25)
+            if self.coalesce:
+                self.run.probe("coalesced-emission")
 
     def mask(self):
         return b"\x21\x43\x65\x87" if self.cfg["server"] else None
@@ -247,8 +251,9 @@ class World(WsWorld):
     def extra_actions(self):
         acts = []
         if self.mode in ("recv", "inflate"):
-            if self.emitted < len(self.script) and not self.p2e.buf:
+            if self.emitted < len(self.script) and (not self.p2e.buf or self.coalesce):
                 # next piece only once the previous one was consumed: header-only delivery
+                # (unless this run coalesces: then several frames / messages may be in flight at once)
                 acts.append((5.0, "emit", self.emit))
             if self.local_close_planned and not self.local_closed and self.e.p._st == 3:
                 acts.append((1.0, "app-close", self.app_close))
